@@ -17,7 +17,10 @@ RULE = ('(tables) macro programs from the C03 generator (multi-file, reps, names
         'model of the reference-inlined program; names of different (expansion path, label) pairs differ; the only other '
         'entries are the internal kinds (:wflips:N, _.wflip_area_start_N, ...---:start:).  Breakpoint requests (exact names '
         'present/absent, substrings of one / many / no label, the empty string, raw addresses) must resolve to exactly the '
-        'matching addresses.  (round trip) arbitrary {str: int} dictionaries survive save/load unchanged.  non-trivial = '
+        'matching addresses.  (library paths) programs calling stl macros, assembled after 0-2 other assemblies in the same process that gave the '
+        'library files other short names (s1.., f1.. via get_stl_paths(), names chosen via assembler.assemble): every path '
+        'element short:line:macro of every table entry must name a file of THIS assembly whose line calls that macro.  '
+        '(round trip) arbitrary {str: int} dictionaries survive save/load unchanged.  non-trivial = '
         '>= 2 expansions of a macro that has an @ label, or a rep with n >= 2, or one spelling in two namespaces')
 ASSUMPTIONS = ['expected addresses come from fjverif/asmref.layout of the inlined program (independent of the assembler)',
                'the path element may be written "f1:l3:" (as this tree does) or "f1:3:" (as flipjump/README.md shows); both are accepted']
@@ -39,10 +42,104 @@ def roundtrip_cases(draw):
     return {'kind': 'roundtrip', 'dict': sorted(dct.items())}
 
 
+STL_CALLS = ['bit.if0 x, l', 'bit.not x', 'bit.if x, l, l2', 'hex.inc 2, h', 'hex.if0 2, h, l', 'bit.print x', 'stl.output_char 65',
+             'hex.add 2, h, h2', 'bit.inc 3, v', 'hex.print_as_digit h, 0', 'stl.fcall f, r', 'um', 'rep(2, i) bit.xor x, y']
+STL_TAIL = ('l:\nl2:\nstl.loop\nf: stl.fret r\nr: bit.bit 0\nx: bit.bit 0\ny: bit.bit 1\nv: bit.vec 3, 5\nh: hex.vec 2, 7\nh2: hex.vec 2, 9\nhex.init\n'
+            'def um @ here, here2 {\n  bit.not x\n  here:\n  bit.if1 x, here2\n  here2:\n}\n')
+ROUTES = ['default', 'via_stl_list', 'short_prefix:q', 'short_prefix:lib', 'short_prefix:s']
+
+
+@st.composite
+def stl_path_cases(draw):
+    """a program that calls library macros, assembled with a debugging file after 0-2 other assemblies in the same process
+    that gave the library files other short names (default s1.., the caller's own list f1.., names chosen through
+    assembler.assemble)"""
+    d = D(draw)
+    w = d.choice([64, 32, 64])
+
+    def prog():
+        calls = [d.choice(STL_CALLS) for _ in range(d.int(1, 5))]
+        return 'stl.startup\n' + '\n'.join(calls) + '\n' + STL_TAIL
+    steps = []
+    for _ in range(d.choice([1, 1, 2, 0])):
+        steps.append({'route': d.choice(ROUTES), 'w': w if d.pct() < 85 else d.choice([32, 64]), 'text': prog(), 'werror': False})
+    steps.append({'route': d.choice(ROUTES), 'w': w, 'text': prog(), 'werror': False})
+    return {'kind': 'stl-paths', 'steps': steps}
+
+
 def families(tier):
     q = tier == 'quick'
     return [{'name': 'label-tables', 'strategy': table_cases, 'examples': 350 if q else 25000},
+            {'name': 'library-expansion-paths', 'strategy': stl_path_cases, 'examples': 12 if q else 600},
             {'name': 'save-load-roundtrip', 'strategy': roundtrip_cases, 'examples': 200 if q else 10000}]
+
+
+COMP = re.compile(r'^([A-Za-z_]+\d+):l?(\d+):((?:rep\d+:)?)(.+)$')
+
+
+def run_stl_paths(case):
+    import flipjump
+    from fjverif import asm_worker
+    from flipjump.utils.functions import load_debugging_labels
+    cl = ['family=stl-paths']
+    tmp = engines.tmpdir()
+    res = None
+    for st_ in case['steps']:
+        req = {'texts': [st_['text']], 'w': st_['w'], 'werror': st_['werror'], 'version': 0, 'depth': None, 'use_stl': True,
+               'dir_tag': 'c16stl', 'debug': True}
+        if st_['route'] == 'via_stl_list':
+            req['via_stl_list'] = True
+        elif st_['route'].startswith('short_prefix:'):
+            req['short_prefix'] = st_['route'].split(':')[1]
+        res = asm_worker.do_request(req, base_dir=str(tmp))
+    last = case['steps'][-1]
+    if res['status'] != 'ok':
+        if res['status'] == 'fj-exception':
+            return Discard('program rejected: %s' % (res.get('msg') or '')[:80])
+        return Violation('c16:stl-paths:raw-exception', {'exc': res.get('exc'), 'msg': res.get('msg'), 'steps': case['steps']}, cl)
+    p = tmp / 'c16stl.fjd'
+    p.write_bytes(bytes.fromhex(res['fjd']))
+    table = load_debugging_labels(p)
+    # the files of THIS assembly by short name (names computed here; the library file list is the public get_stl_paths())
+    stl = [str(x) for x in flipjump.get_stl_paths()]
+    route = last['route']
+    files = {}
+    if route == 'via_stl_list':
+        for i, f in enumerate(stl):
+            files['f%d' % (i + 1)] = open(f, encoding='utf-8').read().split('\n')
+        files['f%d' % (len(stl) + 1)] = last['text'].split('\n')
+    else:
+        pre = 's' if route == 'default' else route.split(':')[1]
+        for i, f in enumerate(stl):
+            files['%s%d' % (pre, i + 1)] = open(f, encoding='utf-8').read().split('\n')
+        if pre == 'f':
+            return Discard('the chosen library names collide with the user file name')
+        files['f1'] = last['text'].split('\n')
+    n_comp = 0
+    for name in sorted(table):
+        comps = name.split('---')[:-1]
+        for c in comps:
+            m = COMP.match(c)
+            if not m:
+                return Violation('c16:stl-paths:path-element-format', {'label': name, 'element': c}, cl)
+            short, line, _, macro = m.group(1), int(m.group(2)), m.group(3), m.group(4)
+            if short not in files:
+                return Violation('c16:stl-paths:file-name-not-of-this-assembly', {'label': name, 'element': c, 'route': route,
+                                                                                    'steps': [(x['route'], x['w']) for x in case['steps']]}, cl)
+            base = macro.split('(')[0].split('.')[-1]
+            lines = files[short]
+            if not (1 <= line <= len(lines)) or not re.search(r'(?<![A-Za-z0-9_])' + re.escape(base) + r'(?![A-Za-z0-9_])', lines[line - 1]):
+                return Violation('c16:stl-paths:line-does-not-call-the-macro', {'label': name, 'element': c, 'route': route,
+                                 'line_text': lines[line - 1][:120] if 1 <= line <= len(lines) else None,
+                                 'steps': [(x['route'], x['w']) for x in case['steps']]}, cl)
+            n_comp += 1
+    cl.append('route=' + route)
+    hist = [x['route'] for x in case['steps'][:-1]]
+    other = any(h != route for h in hist)
+    if other:
+        cl.append('earlier assembly gave the library files other names')
+    return Ok(sorted(set(cl)), other and n_comp >= 5)
+
 
 
 def run_roundtrip(case):
@@ -168,4 +265,6 @@ def run_table(case):
 def run_case(case):
     if case.get('kind') == 'roundtrip':
         return run_roundtrip(case)
+    if case.get('kind') == 'stl-paths':
+        return run_stl_paths(case)
     return run_table(case)
